@@ -171,7 +171,144 @@ fn scenario<F: Function + MathFunction + Clone + 'static>(name: &str) {
     println!("{name}: ok");
 }
 
+/// E4b: the REAL rayon scheduler (not the simulated executor) driving the
+/// real renderers and mesher on tiny workloads, under Miri's seeded
+/// preemptive scheduler; a second thread sets the cancel token at a
+/// schedule-dependent instant.
+fn rayon_scenario() {
+    use fidget_core::render::{ImageSize, ThreadPool, TileSizes, VoxelSize};
+    use fidget_core::shape::Shape;
+    use fidget_mesh::{Octree, Settings};
+    use fidget_raster::{pixel, voxel};
+    let f: VmFunction = {
+        let mut ctx = Context::new();
+        let x = ctx.x();
+        let y = ctx.y();
+        let z = ctx.z();
+        let x2 = ctx.square(x).unwrap();
+        let y2 = ctx.square(y).unwrap();
+        let z2 = ctx.square(z).unwrap();
+        let s = ctx.add(x2, y2).unwrap();
+        let s = ctx.add(s, z2).unwrap();
+        let r = ctx.sqrt(s).unwrap();
+        let sphere = ctx.sub(r, 0.7).unwrap();
+        let ax = ctx.abs(x).unwrap();
+        let bx = ctx.sub(ax, 0.3).unwrap();
+        let d = ctx.max(sphere, bx).unwrap();
+        VmFunction::new(&ctx, &[d]).unwrap()
+    };
+    let shape = Shape::new_raw(f);
+    let pool = |n| {
+        ThreadPool::Custom(
+            rayon::ThreadPoolBuilder::new().num_threads(n).build().unwrap(),
+        )
+    };
+    let tiles = || Some(TileSizes::new(&[4, 2]).unwrap());
+
+    // 2-D
+    let cfg = pixel::RenderConfig::from_size(ImageSize::new(8, 6));
+    let run2 = |threads: Option<&ThreadPool>, cancel: CancelToken| {
+        pixel::render(
+            shape.clone().try_into().unwrap(),
+            &cfg,
+            &pixel::EvalConfig {
+                tile_sizes: tiles(),
+                threads,
+                cancel,
+            },
+        )
+        .map(|i| i.iter().map(|p| p.inside()).collect::<Vec<bool>>())
+    };
+    let seq = run2(None, CancelToken::new()).unwrap();
+    let p2 = pool(2);
+    assert_eq!(run2(Some(&p2), CancelToken::new()).unwrap(), seq, "2-D pool");
+    // cancelled at a schedule-dependent instant: None or the complete image
+    let tok = CancelToken::new();
+    let t2 = tok.clone();
+    let h = std::thread::spawn(move || {
+        std::thread::yield_now();
+        t2.cancel();
+    });
+    match run2(Some(&p2), tok) {
+        None => (),
+        Some(img) => assert_eq!(img, seq, "2-D cancelled run returned a partial image"),
+    }
+    h.join().unwrap();
+    let pre = CancelToken::new();
+    pre.cancel();
+    assert!(run2(Some(&p2), pre).is_none(), "2-D pre-cancelled run returned a result");
+
+    // 3-D
+    let cfg3 = voxel::RenderConfig::from_size(VoxelSize::new(6, 8, 5));
+    let run3 = |threads: Option<&ThreadPool>, cancel: CancelToken| {
+        voxel::render(
+            shape.clone().try_into().unwrap(),
+            &cfg3,
+            &voxel::EvalConfig {
+                tile_sizes: tiles(),
+                threads,
+                cancel,
+            },
+        )
+        .map(|i| i.iter().map(|p| (p.depth, p.normal.map(f32::to_bits))).collect::<Vec<_>>())
+    };
+    let seq3 = run3(None, CancelToken::new()).unwrap();
+    let p3 = pool(3);
+    assert_eq!(run3(Some(&p3), CancelToken::new()).unwrap(), seq3, "3-D pool");
+
+    // mesh
+    let build = |threads: Option<&ThreadPool>, cancel: CancelToken| {
+        let s = Settings {
+            depth: 2,
+            world_to_model: nalgebra_identity(),
+            threads,
+            cancel,
+        };
+        Octree::build(&shape.clone().try_into().unwrap(), &s).map(|o| {
+            let m = o.walk_dual();
+            let mut t: Vec<[[u32; 3]; 3]> = m
+                .triangles
+                .iter()
+                .map(|t| {
+                    let p = [t.x, t.y, t.z].map(|i| {
+                        let v = m.vertices[i];
+                        [v.x.to_bits(), v.y.to_bits(), v.z.to_bits()]
+                    });
+                    let k = (0..3).min_by_key(|i| p[*i]).unwrap();
+                    [p[k], p[(k + 1) % 3], p[(k + 2) % 3]]
+                })
+                .collect();
+            t.sort();
+            t
+        })
+    };
+    let mseq = build(None, CancelToken::new()).unwrap();
+    assert_eq!(build(Some(&p2), CancelToken::new()).unwrap(), mseq, "mesh pool");
+    let tok = CancelToken::new();
+    let t2 = tok.clone();
+    let h = std::thread::spawn(move || {
+        std::thread::yield_now();
+        t2.cancel();
+    });
+    match build(Some(&p3), tok) {
+        None => (),
+        Some(m) => assert_eq!(m, mseq, "cancelled mesh build returned a partial octree"),
+    }
+    h.join().unwrap();
+    println!("rayon: ok");
+}
+
+fn nalgebra_identity() -> nalgebra::Matrix4<f32> {
+    nalgebra::Matrix4::identity()
+}
+
 fn main() {
-    scenario::<VmFunction>("vm255");
-    scenario::<GenericVmFunction<3>>("vm3");
+    let which = std::env::args().nth(1).unwrap_or_default();
+    if which != "rayon" {
+        scenario::<VmFunction>("vm255");
+        scenario::<GenericVmFunction<3>>("vm3");
+    }
+    if which != "tapes" {
+        rayon_scenario();
+    }
 }
